@@ -31,6 +31,11 @@ fn field_attr(recvs: &[Recv], scope: &str, f: &Field, k: usize) -> String {
         With::Closure => {
             if let Ty::Sc(sc) = f.ty {
                 opts.push(format!("with = |m: &syn::Meta| <{} as ::darling::FromMeta>::from_meta(m).map(|v| {})", rust_ty(recvs, &f.ty), with_body(sc)));
+            } else if let Ty::Opt(inner) = &f.ty {
+                // a custom converter on an optional field: absent it is still `None`
+                if let Ty::Sc(sc) = **inner {
+                    opts.push(format!("with = |m: &syn::Meta| <{} as ::darling::FromMeta>::from_meta(m).map(|o| o.map(|v| {}))", rust_ty(recvs, &f.ty), with_body(sc)));
+                }
             }
         }
     }
@@ -58,6 +63,16 @@ fn field_helpers(recvs: &[Recv], scope: &str, f: &Field, k: usize, out: &mut Str
         out.push_str(&format!("fn {hn}() -> {full_ty} {{ {} }}\n", field_sentinel_expr(recvs, f, Tag::FieldDefault, k)));
     } else if f.default == Def::Func {
         out.push_str(&format!("fn fdef_{}_{}() -> {full_ty} {{ {} }}\n", scope, hn, field_sentinel_expr(recvs, f, Tag::FieldDefault, k)));
+    }
+    if let (Ty::Opt(inner), With::Path) = (&f.ty, f.with) {
+        if let Ty::Sc(sc) = **inner {
+            out.push_str(&format!(
+                "fn with_{}_{}(m: &syn::Meta) -> ::darling::Result<{elem_ty}> {{ <{elem_ty} as ::darling::FromMeta>::from_meta(m).map(|o| o.map(|v| {})) }}\n",
+                scope,
+                hn,
+                with_body(sc)
+            ));
+        }
     }
     if let Ty::Sc(sc) = f.ty {
         if f.with == With::Path {
